@@ -50,3 +50,14 @@ Definition chk_preset (c : c14_preset_case) : bool :=
   | None => true
   | Some (c', nc, ids, e2) => out_beq (decompose env c' nc ids None) e2
   end.
+
+(* QPDBasis.__eq__ modelled explicitly (Model/DecomposeEq.v): handles are OBJECT identities; every basis object carries
+   its qubit count, maps and exact coefficients.  case = (objects, input, #clbits, instruction_ids, map_ids, result) *)
+From CKT Require Import Model.DecomposeEq.
+Definition RB := mkRB.
+Definition c14_r_case : Type :=
+  renv * circ * nat * list (list nat) * option (list (option Z)) * res (circ * nat).
+
+Definition chk_decompose_r (c : c14_r_case) : bool :=
+  let '(re, ci, nc, ids, maps, e) := c in
+  out_beq (decompose_r re ci nc ids maps) e.
